@@ -8,6 +8,7 @@ from ..astutil import (always_leaves, src, flat_guards, flatten_guard, calls_in,
 from ..cfg import cfg_of, Prov, resolve_local
 from ..irwrites import closure_effects, IR_MODULES
 from .. import variants as V
+from .. import kernel
 
 PROPERTY = "C03"
 TITLE = "Type erasure only removes inferable type information"
@@ -650,6 +651,76 @@ def r9_inferred_types_are_own(repo, rule="C03-R9"):
     return obs
 
 
+def r10_equality(repo):
+    """an annotation is removable when the inferred type equals the declared one: a coarser equality removes annotations that are not inferable"""
+    return kernel.equality_is_structural(repo, "C03-R10")
+
+
+def r11_poly(repo):
+    """'replaced by what a compiler infers from the remaining program': a lambda or a method reference is typed *from* its
+    target, it is not something a type argument can be inferred from"""
+    from .c02 import poly_expressions_rule
+    return poly_expressions_rule(repo, "C03-R11")
+
+
+def r12_member_type_hint(repo):
+    """The type of `receiver.member` that the analysis (and the Java/Groovy printers) work with is the member's declared
+    type substituted with (1) the type arguments of the class of the hierarchy that *declares* the member
+    (`rec_t.get_type_variable_assignments()`, rec_t = the supertype get_decl_from_inheritance found it in) and (2) the
+    call's explicit type arguments for the member's own type parameters.  The receiver's own assignments are for the
+    receiver's type parameters - merged in, a same-named parameter of the subclass overrides the superclass's argument
+    (`class B<T> : A<Int>`), and the erasure infers a declared type from the wrong member type."""
+    f = repo.fn("src.ir.type_utils.get_type_hint").nested.get("_comp_type")
+    if f is None:
+        raise AnalysisError("get_type_hint._comp_type not found", rule="C03-R12", anchor="src.ir.type_utils.get_type_hint")
+    obs = []
+    subs = [k for k in calls_in(f.node) if call_name(k) == "substitute_type"]
+    ok = len(subs) == 1 and len(subs[0].args) == 2 and isinstance(subs[0].args[1], ast.Name)
+    if not ok:
+        obs.append(Ob("C03-R12", "_comp_type:one-substitution-with-a-local-map", _w(f), False,
+                      "expected one substitute_type(<member type>, <map>): %s" % [src(k) for k in subs]))
+        return obs
+    mp = subs[0].args[1].id
+    g = cfg_of(f.node)
+    pairs = [p for p in _unpack_pairs(f.node)]
+    rec = next((b for a, b in pairs if b is not None), None)
+    defs = [v for _d, v, _k in g.defs_reaching(mp, subs[0])]
+    bad_defs = [src(v) for v in defs if v is None or not (
+        (isinstance(v, ast.Dict) and not v.keys) or
+        (isinstance(v, ast.Call) and call_name(v) == "get_type_variable_assignments" and rec is not None and
+         src(v.func.value) == rec))]
+    obs.append(Ob("C03-R12", "_comp_type:map-starts-from-the-declaring-class", _w(f, subs[0]), bool(defs) and not bad_defs,
+                  "the substitution map must start as `%s.get_type_variable_assignments()` (the supertype that declares the "
+                  "member) or `{}`; other definitions: %s" % (rec, bad_defs)))
+    writes = []
+    for k in calls_in(f.node):
+        if isinstance(k.func, ast.Attribute) and isinstance(k.func.value, ast.Name) and k.func.value.id == mp and \
+                k.func.attr in ("update", "setdefault", "__setitem__", "pop", "clear"):
+            writes.append(k)
+    subs_w = [n for n in iter_own_nodes(f.node) if isinstance(n, (ast.Assign, ast.AugAssign)) and
+              any(isinstance(t, ast.Subscript) and isinstance(t.value, ast.Name) and t.value.id == mp
+                  for t in (n.targets if isinstance(n, ast.Assign) else [n.target]))]
+    bad = [src(w)[:70] for w in subs_w]
+    for k in writes:
+        a = k.args[0] if k.args else None
+        own = k.func.attr == "update" and isinstance(a, ast.DictComp) and len(a.generators) == 1 and \
+            src(a.generators[0].iter).endswith("decl.type_parameters)") and "type_args" in src(a.value)
+        if not own:
+            bad.append(" ".join(src(k).split())[:70])
+    obs.append(Ob("C03-R12", "_comp_type:only-the-member's-own-type-arguments-are-merged-in", _w(f), not bad,
+                  "besides the declaring class's assignments only `{t_param: type_args[i] for .. in enumerate("
+                  "decl.type_parameters)}` may enter the map; other writes: %s" % bad))
+    return obs
+
+
+def _unpack_pairs(fn_node):
+    """(first, second) target names of `a, b = x` statements"""
+    for n in iter_own_nodes(fn_node):
+        if isinstance(n, ast.Assign) and isinstance(n.targets[0], ast.Tuple) and len(n.targets[0].elts) == 2 and \
+                all(isinstance(e, ast.Name) for e in n.targets[0].elts):
+            yield n.targets[0].elts[0].id, n.targets[0].elts[1].id
+
+
 def rules():
     return [
         RuleSpec("C03-R1", "write set of the erasure mutation's call-graph closure", 8, r1_write_set),
@@ -661,6 +732,9 @@ def rules():
         RuleSpec("C03-R7", "shape of the feasibility test (verification passes)", 4, r7_feasibility_shape),
         RuleSpec("C03-R9", "inferred type nodes carry the expression's own type", 12, r9_inferred_types_are_own),
         RuleSpec("C03-R8", "expected-type context of the analysis: save / set / restore around sub-visits", 12, r8_expected_type_context),
+        RuleSpec("C03-R10", "equality of types is structural (declared and inferred types are compared by ==)", 6, r10_equality),
+        RuleSpec("C03-R11", "poly expressions (lambda, method reference) are no inference sources", 2, r11_poly),
+        RuleSpec("C03-R12", "type hint of a member: substituted with the declaring class's arguments and the call's own", 2, r12_member_type_hint),
     ]
 
 
